@@ -255,7 +255,7 @@ def gen_edit(r, files, dirs, root, in_build: bool, safe: bool = False, initial=N
                  "add_glob", "add_tree_file", "rmtree", "rmtree_recreate", "mkdir_plain", "mkdir_matching",
                  "new_dir_with_file", "move_dir_back", "move_dir", "move_file", "tamper_out", "delete_out",
                  "create_missing", "delete_create_other", "restore_deleted", "restore_deleted",
-                 "new_match_in_existing_dir"]
+                 "new_match_in_existing_dir", "write_under_moved_dir", "write_under_moved_dir"]
     if safe:
         # stay away from the four known classes (new / removed / vanished matched directories, a created
         # file that is an undeclared input and a glob match) so that other differences are not masked
@@ -321,6 +321,15 @@ def gen_edit(r, files, dirs, root, in_build: bool, safe: bool = False, initial=N
         d = r.choice(topdirs + subdirs)
         dst = f"{d}_m{n}"
         return kind, [("move", d, dst)]
+    if kind == "write_under_moved_dir":
+        # the rename and the write happen before the director handles the rename: inotify reports the write
+        # through the old watch, i.e. as an UPDATE of a path that no longer exists
+        cands = [p for p in statics if "/" in p and p.split("/")[0] in topdirs]
+        if cands:
+            p = r.choice(cands)
+            d = p.split("/")[0]
+            dst = f"{d}_w{n}"
+            return kind, [("move", d, dst), ("write", dst + p[len(d):], text(p) + f"moved {n}\n")]
     if kind == "move_file" and srcs:
         p = r.choice(srcs)
         return kind, [("move", p, p + f".moved{n}")]
@@ -399,10 +408,6 @@ def classify(aspects, rW, rR, newdirs, reports_w=(), reports_r=(), exists=lambda
         for d in newdirs:
             if p.rstrip("/") == d or p.startswith(d + "/"):
                 return "watch-new-directory-unreported"
-    if any(any(p.startswith(d + "/") for d in moved_dirs) and not exists_any(p) for p in upd_w - upd_r):
-        # the watcher's last item about a path is an UPDATE although the path is gone: a write inside a
-        # directory that had just been renamed, reported by inotify through the old watch, under the old path
-        return "watch-update-under-moved-directory"
     if any(p in created and os.path.dirname(p) not in newdirs and os.path.dirname(p) not in ever_watched
            for p in upd_r - upd_w):
         # a file CREATED in this round in a directory that existed before and that the director never
@@ -423,6 +428,10 @@ def classify(aspects, rW, rR, newdirs, reports_w=(), reports_r=(), exists=lambda
         # the restart's rescan noticed a change that was made in an EARLIER round (while the node was
         # detached, so that neither director cared then) and that the watcher has no item for
         return "watch-differs:change-while-detached"
+    if any(any(p.startswith(d + "/") for d in moved_dirs) and not exists_any(p) for p in upd_w - upd_r):
+        # the watcher's last item about a path is an UPDATE although the path is gone: a write inside a
+        # directory that had just been renamed, reported by inotify through the old watch, under the old path
+        return "watch-update-under-moved-directory"
     return "watch-differs:" + "+".join(aspects)
 
 
@@ -810,6 +819,7 @@ class AppliedLog:
         def process_nglob_changes(wf, deleted, updated):
             if log.armed and log.watch is not None and log.watch["pruned"] is None:
                 log.watch["pruned"] = sorted(updated)
+                log.watch["final_deleted"] = sorted(deleted)
             return orig_png(wf, deleted, updated)
 
         async def rescan_files(workflow, reporter, builder):
@@ -875,7 +885,10 @@ class AppliedLog:
             key = lambda s: s.encode("utf-8", "surrogatepass")  # noqa: E731
             line = (f"c14 applied {node_tok(w['rows'])} {disk_tok(w['disk'])} {hexlist(w['updated'])} "
                     f"{hexlist(w['deleted'])} .")
-            want = f"watch={applied_tok(w['applied'])} pruned={hexlist(sorted(w['pruned'], key=key))} restart=."
+            want = (f"watch={applied_tok(w['applied'])} pruned={hexlist(sorted(w['pruned'], key=key))} "
+                    f"deleted={hexlist(sorted(w['final_deleted'], key=key))} restart=.")
+            if set(w["final_deleted"]) - set(w["deleted"]):
+                self.ctx.stats.count("applied-watch-update-of-vanished-path-moved-to-deleted")
             self.lines.append(line)
             self.expect.append((want, "watch", {**where, "round": nround}))
             self.ctx.stats.case(("applied-watch", len(w["rows"]), len(w["applied"]), len(w["updated"]), len(w["deleted"])),
@@ -883,7 +896,7 @@ class AppliedLog:
         if rs is not None and not rs["open"] and all(v is not None for v in rs["disk"].values()):
             paths = [row[0] for row in rs["rows"]]
             line = f"c14 applied {node_tok(rs['rows'])} {disk_tok(rs['disk'])} . . {hexlist(paths)}"
-            want = f"watch=. pruned=. restart={applied_tok(rs['applied'])}"
+            want = f"watch=. pruned=. deleted=. restart={applied_tok(rs['applied'])}"
             self.lines.append(line)
             self.expect.append((want, "restart", {**where, "round": nround}))
             self.ctx.stats.case(("applied-restart", len(rs["rows"]), len(rs["applied"])), nontrivial=bool(rs["applied"]))
